@@ -26,8 +26,6 @@ func (v Version) String() string {
 	return fmt.Sprintf("%d.%d", v.Major, v.Minor)
 }
 
-// TODO: Check FormatName in the various Header.validate() functions.
-
 // EncryptionHeader is the first packet in an encrypted message. It contains
 // the encryptions of the session key, and various message metadata. This same
 // struct is used for the signcryption mode as well, though the key types
@@ -82,6 +80,9 @@ func (b *encryptionBlockV2) CodecDecodeSelf(d *codec.Decoder) {
 }
 
 func (h *EncryptionHeader) validate(versionValidator func(Version) error) error {
+	if h.FormatName != FormatName {
+		return ErrNotASaltpackMessage
+	}
 	if h.Type != MessageTypeEncryption {
 		return ErrWrongMessageType{MessageTypeEncryption, h.Type}
 	}
@@ -100,6 +101,9 @@ type signcryptionBlock struct {
 }
 
 func (h *SigncryptionHeader) validate() error {
+	if h.FormatName != FormatName {
+		return ErrNotASaltpackMessage
+	}
 	if h.Type != MessageTypeSigncryption {
 		return ErrWrongMessageType{MessageTypeSigncryption, h.Type}
 	}
@@ -140,6 +144,9 @@ func newSignatureHeader(version Version, sender SigningPublicKey, msgType Messag
 }
 
 func (h *SignatureHeader) validate(versionValidator VersionValidator, msgType MessageType) error {
+	if h.FormatName != FormatName {
+		return ErrNotASaltpackMessage
+	}
 	if err := versionValidator(h.Version); err != nil {
 		return err
 	}
